@@ -72,6 +72,11 @@ CHECKS.update({
          'For ranges 1..N (N<=9 quick, <=11 thorough) every subset of present state files (404 for the others) x every query position x the four streams is looked up through the public *StateAt API against a local server that answers only the documented planet paths and turns non-termination into a counted budget overrun (HTTP 500); the result must be the first present state at or after t (newest when later than all) within the loose request budget; larger and high-offset ranges with gap runs next to the probes are sampled; the three timestamp formats, the changeset off-by-one and data URLs are checked.',
          'trusted: the fake server\'s layout table (three-level zero-padded paths, state.txt/state.yaml). Offset windows with a missing prefix longer than 5 000 files are not queried at or before their first present state.'),
 })
+CHECKS.update({
+ 'C15': ('exploration', 'reference-model monitor over enumerated and generated (element, update list, t) triples, with shrinking',
+         'Way/Relation.ApplyUpdatesUpTo, Updates.UpTo and Way.LineStringAt are executed on every update list up to length 3 (4 in thorough) over 0-3 children and on generated lists (0-12 children, 0-30 updates, duplicate timestamps, 1 ns neighbours, index-sorted / time-sorted / shuffled / interleaved storage) at every distinct instant, and compared with an independent model: exact state and pending list, typed out-of-range error, composability for per-child time-ordered lists, LineStringAt against apply+LineString on fully annotated ways, and the consumer path through annotate.Relations.',
+         'trusted: the 60-line reference model. Negative indexes, partially annotated ways and element state after an out-of-range error are outside the statement: run, counted, not asserted.'),
+})
 PENDING = 'check not built yet in this revision of /verif (planned in DESIGN.md section 4); no verdict is claimed'
 
 checks, na = [], []
